@@ -744,7 +744,7 @@ func (c *DutiesCache) storeOrAmendProposerDuties(epoch eth2p0.Epoch, dutiesForEp
 	alreadyRequestedIdxs := c.proposerDuties.requestedIdxs[epoch]
 
 	for _, idx := range dutiesForEpoch.requestedIdxs {
-		if !slices.Contains(alreadyRequestedIdxs, idx) {
+		if !slices.Contains(alreadyRequestedIdxs, idx) && !slices.Contains(newlyFetchedIdxs, idx) {
 			appended = true
 
 			newlyFetchedIdxs = append(newlyFetchedIdxs, idx)
@@ -792,7 +792,7 @@ func (c *DutiesCache) storeOrAmendAttesterDuties(epoch eth2p0.Epoch, dutiesForEp
 	alreadyRequestedIdxs := c.attesterDuties.requestedIdxs[epoch]
 
 	for _, idx := range dutiesForEpoch.requestedIdxs {
-		if !slices.Contains(alreadyRequestedIdxs, idx) {
+		if !slices.Contains(alreadyRequestedIdxs, idx) && !slices.Contains(newlyFetchedIdxs, idx) {
 			appended = true
 
 			newlyFetchedIdxs = append(newlyFetchedIdxs, idx)
@@ -841,7 +841,7 @@ func (c *DutiesCache) storeOrAmendSyncDuties(epoch eth2p0.Epoch, dutiesForEpoch 
 	alreadyRequestedIdxs := c.syncDuties.requestedIdxs[epoch]
 
 	for _, idx := range dutiesForEpoch.requestedIdxs {
-		if !slices.Contains(alreadyRequestedIdxs, idx) {
+		if !slices.Contains(alreadyRequestedIdxs, idx) && !slices.Contains(newlyFetchedIdxs, idx) {
 			appended = true
 
 			newlyFetchedIdxs = append(newlyFetchedIdxs, idx)
